@@ -12,6 +12,7 @@ PostOK(j) == /\ got' = j.post.got /\ refs' = j.post.refs /\ uclosed' = j.post.uc
              /\ \A k \in Closers : kpc'[k] = j.post.kpc[k] /\ (kpc'[k] # "idle" => kh'[k] = j.post.kh[k])
              /\ \A r \in Readers : rpc'[r] = j.post.rpc[r] /\ rres'[r] = j.post.rres[r] /\ (rpc'[r] # "idle" => rh'[r] = j.post.rh[r])
              /\ wlast'[1] = j.post.wlast[1] /\ wlast'[2] = j.post.wlast[2]
+             /\ \A h \in HS : dl'[h] = j.post.dl[h]
 TInit == Init /\ l = 2 /\ Tr[1].ev = "Reset"
 Ev(e) == l <= Len(Tr) /\ Tr[l].ev = e /\ l' = l + 1
 J == Tr[l]
@@ -25,12 +26,13 @@ TNext == \/ Ev("Get") /\ Get /\ PostOK(J)
          \/ Ev("DeliverQ") /\ DeliverQ /\ PostOK(J)
          \/ Ev("DeliverWake") /\ DeliverWake(J.p) /\ PostOK(J)
          \/ Ev("Write") /\ Write(J.h) /\ PostOK(J)
+         \/ Ev("SetRD") /\ SetRD(J.h, J.v) /\ PostOK(J)
          \/ Ev("End") /\ UNCHANGED vars /\ PostOK(J)
          \/ /\ Ev("Reset") /\ got' = 0 /\ cancelled' = [h \in HS |-> FALSE] /\ once' = [h \in HS |-> "fresh"] /\ refs' = 0
             /\ uclosed' = FALSE /\ ucloses' = 0 /\ qn' = 0
             /\ kpc' = [k \in Closers |-> "idle"] /\ kh' = [k \in Closers |-> Handles[1]]
             /\ rpc' = [r \in Readers |-> "idle"] /\ rh' = [r \in Readers |-> Handles[1]] /\ rres' = [r \in Readers |-> "none"]
-            /\ sent' = 0 /\ writes' = 0 /\ wlast' = <<"-", "-", FALSE>>
+            /\ sent' = 0 /\ writes' = 0 /\ wlast' = <<"-", "-", FALSE>> /\ dl' = [h \in HS |-> FALSE] /\ ndl' = 0
 TSpec == TInit /\ [][TNext]_tv
 Accepted == IF TLCGet("stats").diameter = Len(Tr) THEN TRUE
             ELSE Print(<<"TRACE_REJECTED_AT", TLCGet("stats").diameter + 1, Len(Tr)>>, FALSE)
